@@ -113,6 +113,7 @@ pub struct TilingOutcome {
 pub fn tiling_walk(v: &View, vd: &mut Verdict, report: bool) -> TilingOutcome {
     let t = &v.out.torrent;
     let mut epochs: BTreeMap<ConnId, Epoch> = BTreeMap::new();
+    let mut closed: BTreeMap<ConnId, Epoch> = BTreeMap::new();
     let mut items = PeerItems::default();
     let mut out = TilingOutcome { epochs: 0, completed: 0, corrupt_completions: vec![] };
     let fail = |vd: &mut Verdict, rule: &str, d: String, seq: u64| {
@@ -254,7 +255,26 @@ pub fn tiling_walk(v: &View, vd: &mut Verdict, report: bool) -> TilingOutcome {
                 // only the client's own close ends its processing: data pushed before a peer's Fin
                 // is still read and handled afterwards
                 Ev::Close { conn, by: world::Side::Client, .. } => {
-                    epochs.remove(conn);
+                    if let Some(e) = epochs.remove(conn) {
+                        closed.insert(*conn, e);
+                    }
+                }
+                // the task gave up on a piece as corrupt although the model has not seen its last
+                // outstanding block yet: it tried to complete the piece too early
+                Ev::KillReq { addr, reason } if reason.to_lowercase().contains("hash mismatch") => {
+                    if let Some(c) = conn_of(v, addr, seq) {
+                        // the socket is closed before the manager handles the kill request
+                        if let Some(e) = epochs.get(&c).or(closed.get(&c)) {
+                            if e.complete_seq.is_none() && !e.accepted.is_empty() {
+                                fail(
+                                    vd,
+                                    "C10.completed-early",
+                                    format!("conn {} piece {}: hash checked while blocks {:?} were still outstanding (requested {:?} of {} bytes)", c, e.index, e.outstanding, e.requests, e.len),
+                                    seq,
+                                );
+                            }
+                        }
+                    }
                 }
                 _ => {}
             },
@@ -858,22 +878,20 @@ impl Check for C11 {
             };
             let (bits, bf_seq) = match &st.bf {
                 Some(b) => b.clone(),
-                None => {
-                    if !st.haves.is_empty() {
-                        vd.fail("C11", "C11.have-without-bitfield", format!("conn {} announces pieces without having sent a bitfield", c), info.open_seq);
-                    }
-                    continue;
-                }
+                // no bitfield on this connection: the statement does not demand one before a
+                // have-announcement, so the run is checked against an empty bitfield
+                None => (vec![false; n], u64::MAX),
             };
             // the task subscribed to completions before it connected, so its run may start earlier
             // than the bitfield (redundant but verified announcements); it may not start later
-            let hi = k_seq.iter().filter(|x| x.1 < bf_seq).count();
+            let hi = k_seq.iter().filter(|x| x.1 < bf_seq).count().min(k_idx.len());
             let mut matched = None;
             for s in (0..=hi).rev() {
                 if s + st.haves.len() > k_idx.len() {
                     continue;
                 }
-                if k_idx[s..s + st.haves.len()] == st.haves[..] && k_idx[..s].iter().all(|i| bits[*i]) {
+                // without a bitfield nothing anchors the start of the run
+                if k_idx[s..s + st.haves.len()] == st.haves[..] && (bf_seq == u64::MAX || k_idx[..s].iter().all(|i| bits[*i])) {
                     matched = Some(s);
                     break;
                 }
